@@ -12,6 +12,7 @@ import (
 	"path/filepath"
 	"strings"
 	"sync"
+	"sync/atomic"
 	"syscall"
 	"time"
 
@@ -23,35 +24,37 @@ import (
 func init() { props["C01"] = runC01 }
 
 type c01Seed struct {
-	Kind     string `json:"kind"` // exact | stale | empty | self
-	Pieces   []int  `json:"pieces"`          // sizes of the rows of the seed's index
-	IndexHex string `json:"index_data_hex"`  // content the seed index describes
-	FileHex  string `json:"file_hex"`        // content of the seed file on disk (differs for stale seeds)
+	Kind     string `json:"kind"`           // exact | stale | empty | self
+	Pieces   []int  `json:"pieces"`         // sizes of the rows of the seed's index
+	IndexHex string `json:"index_data_hex"` // content the seed index describes
+	FileHex  string `json:"file_hex"`       // content of the seed file on disk (differs for stale seeds)
 }
 
 type c01Case struct {
-	BlobHex   string    `json:"blob_hex"`
-	Min       uint64    `json:"min"`
-	Avg       uint64    `json:"avg"`
-	Max       uint64    `json:"max"`
-	Seeds     []c01Seed `json:"seeds"`
-	Prior     string    `json:"prior"` // absent|empty|garbage|longer|shorter|older|equal
-	PriorHex  string    `json:"prior_hex"`
-	Action    int       `json:"action"` // 0 bail-out, 1 skip, 2 regenerate
-	N         int       `json:"n"`
-	Clone     bool      `json:"clone"`
-	Missing   []int     `json:"missing_chunks,omitempty"` // chunk numbers absent from the store
-	Sched     uint64    `json:"sched_seed"`
-	Shape     string    `json:"shape"`
-	Trace     bool      `json:"trace,omitempty"` // record the workers' events (SHA256 ids) for trace validation
+	BlobHex    string    `json:"blob_hex"`
+	Min        uint64    `json:"min"`
+	Avg        uint64    `json:"avg"`
+	Max        uint64    `json:"max"`
+	Seeds      []c01Seed `json:"seeds"`
+	Prior      string    `json:"prior"` // absent|empty|garbage|longer|shorter|older|equal
+	PriorHex   string    `json:"prior_hex"`
+	Action     int       `json:"action"` // 0 bail-out, 1 skip, 2 regenerate
+	N          int       `json:"n"`
+	Clone      bool      `json:"clone"`
+	Missing    []int     `json:"missing_chunks,omitempty"` // chunk numbers absent from the store
+	Sched      uint64    `json:"sched_seed"`
+	CancelAt   int       `json:"cancel_at,omitempty"`   // cancel the context at this scheduling-point hit (0 = never); < 0: counted from the last plan entry's hand-over (site assemble.feed): -1 = the last one
+	CancelSite string    `json:"cancel_site,omitempty"` // count only hits of this site ("" = all)
+	Shape      string    `json:"shape"`
+	Trace      bool      `json:"trace,omitempty"` // record the workers' events (SHA256 ids) for trace validation
 	// outcome
-	Result string `json:"result,omitempty"` // nil | err:<msg> | hang | panic
-	Equal  bool   `json:"output_equals_blob,omitempty"`
-	TraceArgs []string `json:"trace_args,omitempty"` // idx, plan, file0, events for the oracle command c01.atrace
-	TraceAns  string   `json:"trace_model,omitempty"`
-	PlanObs   string   `json:"plan_observed,omitempty"` // the validated plan (first:last:1+seed|0) and
-	Attempts  int      `json:"attempts,omitempty"`      // the number of attempts, from the a.plan / a.planned events
-	VloopModel string  `json:"vloop_model,omitempty"`
+	Result     string   `json:"result,omitempty"` // nil | err:<msg> | hang | panic
+	Equal      bool     `json:"output_equals_blob,omitempty"`
+	TraceArgs  []string `json:"trace_args,omitempty"` // idx, plan, file0, events for the oracle command c01.atrace
+	TraceAns   string   `json:"trace_model,omitempty"`
+	PlanObs    string   `json:"plan_observed,omitempty"` // the validated plan (first:last:1+seed|0) and
+	Attempts   int      `json:"attempts,omitempty"`      // the number of attempts, from the a.plan / a.planned events
+	VloopModel string   `json:"vloop_model,omitempty"`
 }
 
 type memStore struct {
@@ -214,7 +217,21 @@ func c01RunOne(work string, c *c01Case) {
 		return
 	}
 	ch := vh.NewChaos(c.Sched, 5, 30*time.Microsecond)
-	desync.VerifSetYieldHook(ch.Hook)
+	ctx, cancel := context.WithCancel(context.Background())
+	defer cancel()
+	var hits int64
+	cancelAt := int64(c.CancelAt)
+	cancelSite := c.CancelSite
+	if c.CancelAt < 0 {
+		cancelSite = "assemble.feed"
+		cancelAt = int64(len(segs) + 1 + c.CancelAt)
+	}
+	desync.VerifSetYieldHook(func(site string) {
+		if cancelAt > 0 && (cancelSite == "" || cancelSite == site) && atomic.AddInt64(&hits, 1) == cancelAt {
+			cancel()
+		}
+		ch.Hook(site)
+	})
 	defer desync.VerifSetYieldHook(nil)
 	var rec *c01Recorder
 	if c.Trace {
@@ -223,7 +240,7 @@ func c01RunOne(work string, c *c01Case) {
 	}
 	done := make(chan error, 1)
 	go func() {
-		_, err := desync.AssembleFile(context.Background(), target, idx, store, seeds,
+		_, err := desync.AssembleFile(ctx, target, idx, store, seeds,
 			desync.AssembleOptions{N: c.N, InvalidSeedAction: desync.InvalidSeedAction(c.Action)})
 		done <- err
 	}()
@@ -375,7 +392,7 @@ func c01Judge(r *vh.Result, c *c01Case) {
 		}
 	}
 	complete := len(c.Missing) == 0
-	mustSucceed := complete && (consistent || (c.Action == 1 && static) || (c.Action == 2 && static && regenerable))
+	mustSucceed := c.CancelAt == 0 && complete && (consistent || (c.Action == 1 && static) || (c.Action == 2 && static && regenerable))
 	key := fmt.Sprintf("%s|%d|%d|%v|%d|%s|%d", c.Prior, c.Action, c.N, c.Clone, len(c.Seeds), c.BlobHex[:min(20, len(c.BlobHex))], len(c.BlobHex))
 	r.Count(key, len(c.Seeds) > 0 || c.Prior != "absent")
 	r.Dist("prior:" + c.Prior)
@@ -618,6 +635,28 @@ func runC01(a vh.Args, o *vh.Oracle, r *vh.Result) error {
 		c := c01Gen(rng)
 		if rng.Chance(1, 6) {
 			c = c01VloopGen(rng) // overlapping seeds, some stale: the validate / skip / regenerate loop
+		}
+		switch rng.Intn(12) {
+		case 0, 1:
+			// cancellation at a scheduling point, mostly late in the run (after the last segment was handed out,
+			// while the last jobs are being worked on): nil is only acceptable with the complete blob
+			nch := len(vh.UnHex(c.BlobHex))/int(c.Avg) + 2
+			top := 4*nch + 8
+			c.CancelAt = 1 + rng.Intn(top)
+			switch rng.Intn(4) {
+			case 0:
+				c.CancelAt = top/2 + rng.Intn(top/2+1)
+			case 1, 2:
+				// exactly when the feeder is about to hand out one of the last plan entries: its select may
+				// still pick the send although the context is done, and nothing is left to feed afterwards
+				c.CancelAt = -1 - rng.Intn(2)
+			}
+			if rng.Chance(2, 3) {
+				c.N = 1
+			}
+			c.Shape += "+cancel"
+		case 2:
+			c = c01TinyPriorGen(rng)
 		}
 		if rng.Chance(1, 10) {
 			// self-seed family: no seeds, fresh target, the blob twice (chunks recur once the chunker has
